@@ -1,6 +1,6 @@
 (* Properties_C03.v — C03: each epoch exactly once, in DataLoader order.
    Model: SdlModel.v (the multi-process iterator under an explicit arrival SCHEDULE); proofs: SdlMapProofs.v. *)
-From PD Require Import Base SdlModel SdlObs SdlMapProofs SdlIterWorker.
+From PD Require Import Base SdlModel SdlObs SdlMapProofs SdlIterWorker SdlIterScope SdlIterSmall.
 Open Scope list_scope. Open Scope nat_scope.
 
 (* map-style datasets, PROVED for every configuration (any num_workers > 0, prefetch_factor > 0, any batch sampler output,
@@ -33,6 +33,16 @@ Theorem C03_iter_worker_answers_exact : forall c, c_kind c = KIter -> forall w t
   fst (fetches c w wk_fresh ts) = answers (length ts) (worker_batches c w).
 Proof. exact fresh_worker_answers. Qed.
 Print Assumptions C03_iter_worker_answers_exact.
+
+(* the iterable statement itself, MAIN-process side included, on a SMALL SCOPE — a finite-domain theorem established by
+   computation in the kernel (vm_compute over 480 configurations x 128 schedules, lifted with forallb_forall; SdlIterSmall.v):
+   1-2 workers, prefetch_factor 1-2, snapshot interval 0-2, batch_size 1-2, drop_last either way, shards of 0-3 items; every
+   arrival schedule whose first 7 choices are arbitrary (later arrivals take the first candidate).  Nothing is claimed
+   outside this scope; the unbounded statement stays a target. *)
+Theorem C03_iter_epoch_exact_small_scope : forall c sched, In c small_cfgs -> In sched (all_lists [0; 1] 7) ->
+  outcomes c (S (length (reference c))) (sdl_fresh c) sched = map OBatch (reference c) ++ [OStop].
+Proof. exact iter_epoch_exact_small_scope. Qed.
+Print Assumptions C03_iter_epoch_exact_small_scope.
 
 Example C03_reference_example :
   reference {| c_kind := KIter; c_W := 3; c_P := 2; c_I := 1; c_bs := 2; c_drop := false;
